@@ -1038,13 +1038,13 @@ namespace ipr::impl {
 
          template<class T>
          int operator()(const impl::Basic_unary<T>& lhs,
-                        const typename ipr::Basic_unary<T>::Arg_type& rhs) const
+                        const typename impl::Basic_unary<T>::Arg_type& rhs) const
          {
             return impl::compare(lhs.rep, rhs);
          }
 
          template<class T>
-         int operator()(const typename ipr::Basic_unary<T>::Arg_type& lhs,
+         int operator()(const typename impl::Basic_unary<T>::Arg_type& lhs,
                         const impl::Basic_unary<T>& rhs) const
          {
             return impl::compare(lhs, rhs.rep);
@@ -1192,7 +1192,8 @@ namespace ipr::impl {
             if (physically_same(t.name(), id))
                return t;
          }
-         return *extendeds.insert(id, unary_compare());
+         constexpr auto cmp = [](auto& x, auto& y) { return impl::compare(x.name(), y); };
+         return *extendeds.insert(id, cmp);
       }
 
       const ipr::As_type& type_factory::get_as_type(const ipr::Expr& e)
